@@ -17,7 +17,7 @@ def run(chk, tier):
                 'from this call\'s value, walking only through `.next` of occupied cells; K1: through a shared reference the chain cells are '
                 'only touched by try_insert/get, replacement and clearing need &mut self or happen at teardown/Drop; lent boxes are written '
                 'only at construction and only borrowed by output(); no leak primitives.')
-    for cfg in configs(tier, thorough=('std', 'mocks', 'nostd-spin')):
+    for cfg in configs(tier, thorough=('std', 'mocks', 'nostd-spin', 'nostd')):
         F = load(chk, cfg)
         chk.ob('R13.1', 'unimock forbids unsafe code', F.unsafe_code_lint == 'Forbid', config=cfg, site='lint:unimock', what='lint %s' % F.unsafe_code_lint, found=F.unsafe_code_lint, expected='Forbid')
         M = factsmod.load(cfg, crate='unimock_macros')
